@@ -3,7 +3,7 @@ import viewshist
 
 ID = 'C10'
 PROPERTY_FILE = 'Autobean/Properties/C10.lean'
-LEAN_TARGETS = ['Autobean.Properties.C10']
+LEAN_TARGETS = ['Autobean.Properties.C10', 'Autobean.Obligations.CachesViews']
 RULE = ('random operation histories on the real repeated fields (Transaction.raw_tags_links with tags/links, '
         'File.raw_directives_with_comments with raw_directives/directives, raw_postings_with_comments with raw_postings/postings, '
         'raw_meta_with_comments with raw_meta/meta on transactions, opens and postings, Open.raw_currencies with currencies, '
